@@ -1,8 +1,8 @@
 //! K-fold (C05): `Spectrum::fold` / `Folded::into_spectrum` on real spectra.
 //! BOUNDED in shape (one concrete shape per harness, listed in lib/registry.py);
-//! cell values are integer-valued and distinct so that every pairing is observable and f64
-//! arithmetic is exact (x + y and 0.5x + 0.5y of small integers); the fill value is symbolic over
-//! all f64 bit patterns.
+//! cell values are integer-valued and (but for one cancelling mirror pair and a zero diagonal cell)
+//! distinct so that every pairing is observable and f64 arithmetic is exact (x + y and 0.5x + 0.5y of
+//! small integers); the fill value is symbolic over all f64 bit patterns.
 use crate::array::Shape;
 use crate::spectrum::Scs;
 
@@ -19,6 +19,14 @@ fn check_fold<const D: usize>(shape: [usize; D]) {
     while p < n {
         data.push((3 * p * p + 2 * p + 1) as f64); // distinct, non-symmetric
         p += 1;
+    }
+    // a kept cell whose folded value is exactly 0 (cell 1 and its mirror cancel), a negative cell, and -- for an
+    // odd number of cells -- a self-mirrored diagonal cell equal to 0: a folded 0 is a value, not a missing entry
+    if n >= 4 {
+        data[n - 2] = -data[1];
+    }
+    if n % 2 == 1 && n >= 3 {
+        data[n / 2] = 0.0;
     }
     let scs = Scs::new(data.clone(), Shape(shape.to_vec())).unwrap();
     let fill = f64::from_bits(kani::any());
